@@ -91,8 +91,9 @@ pub struct Fixture {
 
 pub fn fixtures() -> Vec<Fixture> {
 	let mut out = vec![];
-	for dir in ["/repo/tests/data", "/repo/benches/data"] {
-		let mut names: Vec<_> = match std::fs::read_dir(dir) {
+	for sub in ["tests/data", "benches/data"] {
+		let dir = format!("{}/{}", crate::util::repo_home(), sub);
+		let mut names: Vec<_> = match std::fs::read_dir(&dir) {
 			Ok(d) => d.filter_map(|e| e.ok()).map(|e| e.path()).collect(),
 			Err(_) => continue,
 		};
